@@ -352,6 +352,34 @@ def interface_field_not_covariant(rng, ir, inj):
 
 
 @op
+def interface_broken_itself_and_badly_implemented(rng, ir, inj):
+    """Two violations around one interface: its own definition is broken (a badly named field or argument) and
+    an object implements another of its fields with a type that does not fit. Both are reported together."""
+    f = inj.fresh("zzBothBroken")
+    bad = bad_name(rng, inj, "BB")
+    if rng.random() < 0.5:
+        own = SField(bad, named("Int"))
+    else:
+        own = SField(inj.fresh("zzok"), named("Int"), [SInput(bad, named("Int"))])
+    i = iface_with(ir, inj, SField(f, lst(named("Int"))))
+    i.fields.append(own)
+    implement(ir, inj, i, [SField(f, named("Int")), copy.deepcopy(own)])
+    return f
+
+
+@op
+def interface_field_retyped_and_argument_missing(rng, ir, inj):
+    """Two violations on one implementing field: its type does not fit and it lacks (or retypes) an argument of
+    the interface field. All violations are reported together: the argument must be named as well."""
+    f = inj.fresh("zzTwoOnOneField")
+    a = inj.fresh("zzNeededArg")
+    i = iface_with(ir, inj, SField(f, lst(named("Int")), [SInput(a, named("Int"))]))
+    mine = [] if rng.random() < 0.6 else [SInput(a, named("String"))]
+    implement(ir, inj, i, [SField(f, named("Int"), mine)])
+    return a
+
+
+@op
 def interface_argument_missing(rng, ir, inj):
     f = inj.fresh("zzArgMissing")
     i = iface_with(ir, inj, SField(f, named("Int"), [SInput("need", named("Int"))]))
